@@ -601,7 +601,7 @@ def leaf_job(name):
 def run(tier):
     from .. import flavours as FL
     from concurrent.futures import ThreadPoolExecutor
-    rep = evidence.Report("C08", tier)
+    rep = evidence.Report("C08", tier, level="fault_enumeration")
     rep.rule = ("case = (flavour, EUT role, position of the peer's message, mutation) - byte values, truncations, extensions, "
                 "declared lengths, type changes derived from the honest message; hand-made semantic malformations; raw record "
                 "level cases after the handshake; every observed API call validated by TLC against ErrorContract.tla; "
